@@ -138,15 +138,18 @@ def extract(config="default", crate_dir=None, use_cache=True, target_tag=None):
     key = tree_hash(crate_dir, config)
     cached = os.path.join(CACHE, "facts", "%s-%s.json" % (key, config))
     if use_cache and os.path.exists(cached):
-        with open(cached) as fh:
-            d = json.load(fh)
-        d["_cache"] = "hit"
-        d["_tree_hash"] = key
         try:
-            os.utime(cached)
-        except OSError:
-            pass
-        return d
+            with open(cached) as fh:
+                d = json.load(fh)
+            d["_cache"] = "hit"
+            d["_tree_hash"] = key
+            try:
+                os.utime(cached)
+            except OSError:
+                pass
+            return d
+        except (OSError, ValueError):
+            pass  # evicted or half-written by a concurrent run: extract again
     prune()
     # one target dir per (crate dir identity, config): dependencies stay warm
     tag = target_tag or hashlib.sha256(crate_dir.encode()).hexdigest()[:10]
@@ -155,11 +158,14 @@ def extract(config="default", crate_dir=None, use_cache=True, target_tag=None):
     with open(os.path.join(CACHE, "extract-%s-%s.lock" % (tag, config)), "w") as lk:
         fcntl.flock(lk, fcntl.LOCK_EX)
         if use_cache and os.path.exists(cached):
-            with open(cached) as fh:
-                d = json.load(fh)
-            d["_cache"] = "hit"
-            d["_tree_hash"] = key
-            return d
+            try:
+                with open(cached) as fh:
+                    d = json.load(fh)
+                d["_cache"] = "hit"
+                d["_tree_hash"] = key
+                return d
+            except (OSError, ValueError):
+                pass
         # cargo's freshness cache would skip the wrapper: drop the member's fingerprints
         for prof_dir in ("debug", "release"):
             fp = os.path.join(tgt, prof_dir, ".fingerprint")
